@@ -245,9 +245,12 @@ class PicklePersister(Persister):
         bundle = Bundle(process)
         checkpoint = PersistedCheckpoint(process.pid, tag)
         persisted_pickle = PersistedPickle(checkpoint, bundle)
+        # Serialise before the file is opened (and thereby truncated): a process that cannot be pickled must leave
+        # the checkpoint that is stored under this key, and the listing of the directory, as they were
+        data = pickle.dumps(persisted_pickle)
 
         with open(self._pickle_filepath(process.pid, tag), 'w+b') as handle:
-            pickle.dump(persisted_pickle, handle)
+            handle.write(data)
 
     def load_checkpoint(self, pid: PID_TYPE, tag: Optional[str] = None) -> Bundle:
         """
